@@ -99,7 +99,12 @@ func (c *Ctx) Prove(s *State, name string, goal *Term, onSat func(val func(*Term
 		return true
 	}
 	sv := c.e().solver
-	r := sv.Check(append(append([]*Term{}, s.pc...), Not(goal))...)
+	ng := Not(goal)
+	r := sv.CheckFlat(append(sliceFor(s.pc, []*Term{ng}), ng)...)
+	if r == "sat" {
+		// full path condition for a complete model (and to rule out an infeasible path)
+		r = sv.CheckFlat(append(append([]*Term{}, s.pc...), ng)...)
+	}
 	switch r {
 	case "unsat":
 		c.res.Dis++
@@ -138,7 +143,7 @@ func (c *Ctx) Prove(s *State, name string, goal *Term, onSat func(val func(*Term
 // Witness: the path condition of s must be satisfiable (vacuity guard); returns a model accessor.
 func (c *Ctx) Witness(s *State, what string, sample func(val func(*Term) uint64) any) bool {
 	sv := c.e().solver
-	r := sv.Check(s.pc...)
+	r := sv.CheckFlat(s.pc...)
 	if r == "sat" {
 		c.res.Witness++
 		if sample != nil && c.res.Sample == nil {
@@ -165,7 +170,7 @@ func (c *Ctx) PathProblem(s *State, where string, mkViol func(val func(*Term) ui
 		// a panic path: the path condition is feasible by construction of forks, ask for a model
 		c.res.Obl++
 		sv := c.e().solver
-		r := sv.Check(s.pc...)
+		r := sv.CheckFlat(s.pc...)
 		if r == "sat" {
 			val := func(t *Term) uint64 { v, _ := sv.Value(t); return v }
 			var v *Violation
@@ -419,6 +424,7 @@ func resetTerms() {
 	// Dropping the table only loses sharing, never correctness: ids stay unique (tcount is not reset) and
 	// constants compare by value.
 	hc = map[termKey]*Term{}
+	varsMemo = map[int][]int{}
 	hc[termKey{op: "true"}] = True
 	hc[termKey{op: "false"}] = False
 	varBounds = map[*Term][2]int64{}
@@ -570,6 +576,13 @@ func finish(d *Driver, tier string, seed int64, all []*ItemResult, wall time.Dur
 			}
 		}
 	}
+	slow := append([]*ItemResult{}, all...)
+	sort.Slice(slow, func(i, j int) bool { return slow[i].WallMs > slow[j].WallMs })
+	var slowest []string
+	for i := 0; i < len(slow) && i < 8; i++ {
+		slowest = append(slowest, fmt.Sprintf("%s: %.1fs wall, %.1fs solver, %d queries", slow[i].ID, slow[i].WallMs/1000, slow[i].SolverMs/1000, slow[i].Queries))
+	}
+	ev.Coverage["slowest_items"] = slowest
 	fnames := make([]string, 0, len(funcs))
 	for k := range funcs {
 		fnames = append(fnames, k)
